@@ -8,6 +8,7 @@
   choices of these orders; they hold for every input, any number of securities and affiliates, any
   ledger function and any calendar.
 -/
+import AcbModel.Generated.AppReports
 import AcbModel.Lemmas.Orders
 namespace Acb
 open Acb.Costs Acb.Gains Acb.Splits Acb.Orders
@@ -82,6 +83,12 @@ theorem C09_summary_deterministic {τ : Type} (o o' : Orders) (ho : o.Ok) (ho' :
     (fun s => !(resultOf o' dflt ledger inp s).ok)
   unfold summaryOutput
   simp only [hres, hpo, hany, hany2]
+
+/-- **C09 (what the source says, re-read by the translator on every run).**  The affiliates of a
+    global split are sorted by id, and a year's day is replaced only by a strictly higher total
+    (so that, the days being visited in date order, the earliest of tied days stays). -/
+theorem C09_source_facts :
+    Gen.splitAffSortKeys = "a.id().cmp(b.id())" ∧ Gen.yearlyMaxCmp = "<" := by decide
 
 end Acb
 
